@@ -2091,7 +2091,7 @@ func (w *World) stableGlobal(heapName string) bool {
 		for path, cf := range w.FileOfPkg {
 			for _, c := range cf.PkgInvs {
 				fn := w.specFn(path + "::" + c.SpecFn)
-				if fn == nil {
+				if fn == nil || (c.Kind == "fact" && strings.HasPrefix(c.Label, "bounded_")) {
 					continue
 				}
 				seen := map[*ssa.Function]bool{}
